@@ -169,6 +169,12 @@ def _check(c, model, case, kwargs, before, result):
                 break
             if logly.get(n):
                 C = 1.0 if (C is None or not np.isfinite(C)) else float(C)
+                if abs(float(L)) < 1e-10 or not (1e-3 < C < 1e3):
+                    # the solver wandered to the edge of the domain of a log-variable (level 1e-37 growing by a factor 1e6 per
+                    # period): every residual vanishes there in ABSOLUTE terms at the two dates the solver looks at, which its
+                    # absolute tolerance cannot tell from convergence. Not a steady state in any useful sense: not decided
+                    c.inconc("solve_steady:converged-at-the-edge-of-a-log-variable-domain")
+                    return
                 data[n] = float(L) * C ** s
                 growth = growth or abs(C - 1.0) > 1e-10
             else:
